@@ -120,7 +120,9 @@ def run(check: Check) -> None:
                         nw0 = len([x for x in w if issubclass(x.category, DataMismatchWarning)])
                         got = spec.get_model_matrix(d2, context={"a": a, "b": b})
                         nw1 = len([x for x in w if issubclass(x.category, DataMismatchWarning)])
-                    return ref, got, nw0, nw1
+                        spec.get_model_matrix(d2, context={"a": a, "b": b})  # a second batch with the same unseen level is announced again
+                        nw2 = len([x for x in w if issubclass(x.category, DataMismatchWarning)])
+                    return ref, got, nw0, (nw1, nw2)
 
                 def claims(res, var=var, out=out, labels0=labels_used):
                     ref, got, nw0, nw1 = res
@@ -128,7 +130,9 @@ def run(check: Check) -> None:
                     lg, cg = mc.matrix_cells(got, out)
                     yield "unseen level: same column names in the same order", lg == labels0 and lr == labels0
                     yield "unseen level: same shape", cg.shape == cr.shape
+                    nw1, nw2 = nw1
                     yield "unseen level: DataMismatchWarning announced (and not for clean data)", nw0 == 0 and nw1 > nw0
+                    yield "unseen level: announced again when the same spec meets it a second time", nw2 > nw1
                     if cg.shape == cr.shape:
                         keep = [i for i in range(n) if i not in (1, 4)]
                         yield "unseen level: rows without the new level are unchanged for all values", conj([same_cell(cg[i, j], cr[i, j]) for i in keep for j in range(len(lg))])
